@@ -79,16 +79,18 @@ CHECKS['C01'] = dict(
          'stop_on_first_failure (option and CONF), allow_unset_measurements, failure_exceptions and test diagnosers (pairs and 3-slot '
          'trees in thorough) is executed with Test.execute(); each run is judged by a record-only soundness predicate and against an '
          'independent outcome ladder.',
-    note='Aborts are C04; timeouts are produced through a virtual deadline clock (module seam in phase_executor); two genuine '
-         'design-level findings (force_repeat / repeat_on_timeout forget an ERROR attempt) are listed in known_findings.json.')
+    note='Aborts: C04\'s scenario judged by the no-false-PASS rule (part aborts); timeouts are produced through a virtual deadline clock '
+         '(module seam in phase_executor); three genuine design-level findings (force_repeat / repeat_on_timeout forget an ERROR '
+         'attempt; an exception inside the executor thread ends the run as if finished) are listed in known_findings.json.')
 CHECKS['C02'] = dict(
     engine='enum', level='model_checking', design_ref='DESIGN.md#c02',
     technique='bounded-exhaustive program enumeration on the real executor vs an independent reference interpreter of docs/event_sequence.md',
     text='All trees of phases/groups/subtests/branches/checkpoints up to 3 leaf slots and depth 2 (4 slots / more kinds in thorough) x '
          'all assignments of behaviours, checkpoint kinds/actions and branch conditions are run on the real TestExecutor and compared '
          'exactly (body call log, phase/subtest/branch/checkpoint records, diagnoses, outcome) with vf/ref/refexec.py.',
-    note='Plain nested sequences and groups/subtests inside teardown sequences are not compared exactly (document is contradictory there; '
-         'C03 covers them by trace predicates). Sampling beyond the bound is outside this technique family.')
+    note='Groups inside teardown sequences are judged by C03\'s trace predicate (templates in both checks); subtests, branches and '
+         'checkpoints as teardown nodes are compared exactly in the teardown-template families. Sampling beyond the bound is outside '
+         'this technique family.')
 
 CHECKS['C05'] = dict(
     engine='enum', level='model_checking', design_ref='DESIGN.md#c05',
